@@ -80,3 +80,11 @@ chk("C02", "SCHED", "model_checking",
     "bytes, inodes and fragment table. Configurations: -j x -Q grid and CPU-affinity masks on the real tools vs the NO_THREAD_IMPL build. Environment: full product clock x TZ x locale x umask x cwd.",
     "Toy RLE compressor and 32-byte blocks in the schedule harness; sync-operation granularity; CLI runs contribute one OS schedule each.",
     "stateless model checking (preemption bounding + state-hash pruning) of the implementation against a serial reference, plus exhaustive configuration/environment grids", "3/C02")
+
+chk("C08", "GEN+SQFSCK", "exploration",
+    "The checksum is replaced at link time by a 0/1/2/4-bit truncation so that equal-size blocks and fragments collide; all ordered pairs over 62 file shapes, all ordered triples "
+    "over 15 shapes, tails-only sequences of length 4-5 (fragment-block overflow; candidates in memory, on disk, cached, evicted) x checksum width x (-j,-Q) x compressor go through the "
+    "real gensquashfs; every file must decode byte-exact and identical files must share storage. The block processor additionally runs under every schedule with a 0-bit checksum "
+    "(in-flight fragment blocks), each file read back byte-exact in every execution.",
+    "Block/tail alphabet of 5+4 contents, <=4 files (5 for tails-only). Trusts SQFSCK.",
+    "bounded exhaustive enumeration of inputs under forced checksum collisions + stateless model checking of in-flight states", "3/C08")
